@@ -458,6 +458,8 @@ class DateSpec(Spec):
         out = []
         for _ in range(n):
             y = rstr(rng, '0123456789', 4, 6) if rng.random() < 0.4 else f'{rng.randint(0, 9999):04d}'
+            if rng.random() < 0.2:
+                y = '0' * rng.randint(1, 3) + f'{rng.randint(1, 9999):04d}'      # longer than four digits and still a year datetime accepts
             if rng.random() < 0.7:
                 m, d = str(rng.randint(1, 12)), str(rng.randint(1, 31))
                 if rng.random() < 0.5:
